@@ -137,6 +137,17 @@ def const_key(c):
     return ("opaque", c.get("ty"), c.get("item"))
 
 
+NONE_RV = {"k": "aggregate", "agg": "adt", "adt": "std::option::Option", "variant": "None", "vidx": 0, "fields": [], "ops": []}
+
+
+def mk_call(name, args, bb, t):
+    """E for a call; std calls whose result is fixed by their definition are given as that value:
+    the residual of `?` on an Option is always None."""
+    if name.startswith("<std::option::Option<T> as std::ops::FromResidual<std::option::Option<std::convert::Infallible>>>::from_residual"):
+        return E("agg", "adt:std::option::Option::None", (), t=NONE_RV)
+    return E("call", name, args, bb, t=t)
+
+
 def callee_name(t):
     """Canonical callee identity of a call terminator (resolved impl if any)."""
     c = t.get("callee")
@@ -481,7 +492,7 @@ class Body:
                 alts.append(self.expr_rvalue(payload["rv"], depth + 1, payload))
             elif kind == "call":
                 args = tuple(self.expr_operand(a, depth + 1) for a in payload["args"])
-                alts.append(E("call", callee_name(payload), args, bb, t=payload))
+                alts.append(mk_call(callee_name(payload), args, bb, payload))
             else:
                 alts.append(E("local", l))
         if not alts:
@@ -492,7 +503,12 @@ class Body:
             # aggregate built then fields overwritten: keep as the local (stateful)
             e = E("local", l)
         else:
-            e = E("phi", tuple(alts))
+            flat = []
+            for a in alts:
+                for x in (a.a[0] if a.k == "phi" else (a,)):        # nested alternatives are alternatives
+                    if x not in flat:
+                        flat.append(x)
+            e = flat[0] if len(flat) == 1 else E("phi", tuple(flat))
         self._expr_memo[l] = e
         return e
 
@@ -503,32 +519,50 @@ class Body:
             base = self.expr_local(p["l"], depth)
         return self._project(base, p["p"], env)
 
+    def _project_one(self, e, el, env=None):
+        """One projection element applied to e; None when the projection cannot apply (a downcast to another variant of a known aggregate)."""
+        if el == "*":
+            return e.a[0] if e.k == "ref" else E("deref", e)
+        if "f" in el:
+            name = el.get("n", el["f"])
+            if e.k == "agg" and (e.a[0] in ("tuple",) or str(e.a[0]).startswith("adt:") or str(e.a[0]).startswith("closure:")) \
+                    and isinstance(el["f"], int) and el["f"] < len(e.a[1]):
+                return e.a[1][el["f"]]      # (a spliced-in closure body reads its captures from the closure value built in the caller)
+            return E("field", e, name)
+        if "dc" in el:
+            if e.k == "agg" and str(e.a[0]).startswith("adt:"):
+                if str(e.a[0]).endswith("::" + str(el.get("n"))):
+                    return e                # downcast of a known variant aggregate: keep the aggregate, the field projection picks its operand
+                if e.t is not None and "vidx" in e.t and isinstance(el.get("dc"), int) and e.t["vidx"] != el["dc"]:
+                    return None             # the value is another variant on this alternative
+            return E("downcast", e, el.get("n", el["dc"]))
+        if "idx" in el:
+            return E("index", e, env[el["idx"]] if (env is not None and el["idx"] in env) else self.expr_local(el["idx"]))
+        if "cidx" in el:
+            return E("index", e, E("const", ("int", el["cidx"])))
+        return E("field", e, str(el))
+
     def _project(self, base, proj, env=None):
         e = base
         for el in proj:
-            if el == "*":
-                if e.k == "ref":
-                    e = e.a[0]
+            if e.k == "phi" and len(e.a[0]) <= 8 and any(a.k == "agg" for a in e.a[0]):
+                # a projection distributes over the alternatives (those it cannot apply to drop out)
+                alts = []
+                for a in e.a[0]:
+                    r = self._project_one(a, el, env)
+                    if r is not None and r not in alts:
+                        alts.append(r)
+                if len(alts) == 1:
+                    e = alts[0]
+                elif alts:
+                    e = E("phi", tuple(alts))
                 else:
-                    e = E("deref", e)
-            elif "f" in el:
-                name = el.get("n", el["f"])
-                if e.k == "agg" and (e.a[0] in ("tuple",) or str(e.a[0]).startswith("adt:")) and isinstance(el["f"], int) and el["f"] < len(e.a[1]) \
-                        and not str(e.a[0]).startswith("closure:"):
-                    e = e.a[1][el["f"]]
-                else:
-                    e = E("field", e, name)
-            elif "dc" in el:
-                if e.k == "agg" and str(e.a[0]).startswith("adt:") and str(e.a[0]).endswith("::" + str(el.get("n"))):
-                    pass            # downcast of a known variant aggregate: keep the aggregate, the field projection picks its operand
-                else:
-                    e = E("downcast", e, el.get("n", el["dc"]))
-            elif "idx" in el:
-                e = E("index", e, env[el["idx"]] if (env is not None and el["idx"] in env) else self.expr_local(el["idx"]))
-            elif "cidx" in el:
-                e = E("index", e, E("const", ("int", el["cidx"])))
-            else:
-                e = E("field", e, str(el))
+                    e = self._project_one(e, el, env)
+                continue
+            r = self._project_one(e, el, env)
+            if r is None:
+                r = E("downcast", e, el.get("n", el["dc"]))
+            e = r
         return e
 
     def expr_rvalue(self, rv, depth=0, stmt=None, env=None):
@@ -584,7 +618,7 @@ class Body:
             t = blk["term"]
             if t["k"] == "call" and not t["dest"]["p"]:
                 args = tuple(self.expr_operand(a, 0, env) for a in t["args"])
-                env[t["dest"]["l"]] = E("call", callee_name(t), args, b, t=t)
+                env[t["dest"]["l"]] = mk_call(callee_name(t), args, b, t)
         return env
 
     # ---- iteration helpers -------------------------------------------------
